@@ -53,6 +53,7 @@ def obligations(tier):
     for ln in lens:
         obs.append(Ob(f"format_cols_len{ln}", "E1", "h_format", {"length": ln, "mode": "cols"}, 900, f"{ln}-byte key (3 vectors), columns 1..12, no-length/no-const flags: tokens == bytes, rows, no trailing comma, length variable", weight=150, per_path=30))
         obs.append(Ob(f"format_indent_len{ln}", "E1", "h_format", {"length": ln, "mode": "indent"}, 900, f"{ln}-byte key, indent 0..6, tab flag, length type, columns in {{1,7,12}}", weight=80, per_path=30))
+    obs.append(Ob("keys_two_pairs_one_generator", "E1", "h_keys2", {}, 600, "two consecutive create_key_pair calls on ONE KeyGenerator (solver-chosen types/encodings): each public file is the public half of its own private key", weight=60))
     obs.append(Ob("keys_wiring", "E1", "h_keys", {}, 300, "6 key types x 2 encodings x 2 x 2 formats through create_key_pair/main with library stubs", weight=30))
     return obs
 
@@ -117,7 +118,13 @@ class _StubPub:
     def public_bytes(self, encoding=None, format=None):
         self.o.log.append(("public_bytes", ename(encoding), ename(format)))
         if self.o.bits:
-            raise ValueError("EC keys do not support Raw")
+            if (ename(encoding), ename(format)) == ("X962", "UncompressedPoint"):
+                # 0x04 || X || Y, fixed width (SEC 1, 2.3.3)
+                from vlib.ksvalues import Rope, Seg, term
+
+                n = (self.o.bits + 7) // 8
+                return Rope([Seg("const", b"\x04"), Seg("int", term(self.o.x), n, "big"), Seg("int", term(self.o.y), n, "big")])
+            raise ValueError("EC keys do not support this encoding/format in the stub")
         return self.o.raw
 
 
@@ -184,7 +191,7 @@ def k_pubkey(bits=256, exclude=()):
         if p.outcome != "ret":
             vpp.append((p, [(f"no exception for a valid key ({type(p.value).__name__})", z3.BoolVal(False))]))
             continue
-        segs = list(Rope.of(p.value).segs)
+        segs = [sg for sg in Rope.of(p.value).segs if not (sg.kind == "int" and isinstance(sg.b, int) and sg.b == 0)]
         ok = len(segs) == 2 and all(s.kind == "int" and s.c == "big" for s in segs)
         vcs = [("output is two big-endian integer fields", z3.BoolVal(ok)), ("key file content handed to the PEM loader", z3.BoolVal(any(e[0] == "load_pem" and e[1] for e in p.log)))]
         if ok:
@@ -203,7 +210,7 @@ def k_pubkey(bits=256, exclude=()):
 
     from props.c10 import _finish
 
-    res = _finish(K, vpp, paths, t0, samples, cex)
+    res = _finish(K, vpp, paths, t0, samples, cex, prefer=(x >= 2 ** (8 * (n - 1)), y >= 2 ** (8 * (n - 1))))
     res["functions"] = sorted(enc)
     if res["verdict"] == "CONFIRMED" and not any(p.outcome == "ret" for p in paths):
         res["verdict"] = "VACUOUS"
@@ -459,6 +466,71 @@ def h_keys(exclude=()):
     return harness
 
 
+def h_keys2(exclude=()):
+    """History of two calls on one object (a stale cached public key would pair the wrong files)."""
+    from vlib import repoenv
+
+    repoenv.prepare_symbolic(model_cbor=False)
+    import suit_generator.cmd_keys as CK
+    from cryptography.hazmat.primitives.asymmetric import ec as real_ec
+
+    from vlib import chx
+
+    log = []
+
+    class EcProxy:
+        SECP256R1, SECP384R1, SECP521R1 = real_ec.SECP256R1, real_ec.SECP384R1, real_ec.SECP521R1
+
+        @staticmethod
+        def generate_private_key(curve, backend=None):
+            if not isinstance(curve, real_ec.EllipticCurve):
+                raise TypeError("curve must be an EllipticCurve instance")
+            k = _GenPriv(curve.name, log)
+            log.append(("generate", id(k), curve.name))
+            return k
+
+    def edproxy(kind):
+        class P:
+            @staticmethod
+            def generate():
+                k = _GenPriv(kind, log)
+                log.append(("generate", id(k), kind))
+                return k
+
+        return P
+
+    CK.ec = EcProxy
+    CK.Ed25519PrivateKey = edproxy("ed25519")
+    CK.Ed448PrivateKey = edproxy("ed448")
+    writes = []
+    CK.KeyGenerator._write = lambda self, data, file_name: writes.append((file_name, data))
+    types = ["secp256r1", "ed25519", "ed448", "secp521r1"]
+
+    def harness():
+        del log[:]
+        del writes[:]
+        t1 = chx.pick("type1", types)
+        t2 = chx.pick("type2", types)
+        e1 = chx.pick("enc1", ["pem", "der"])
+        e2 = chx.pick("enc2", ["pem", "der"])
+        g = CK.KeyGenerator()
+        g.create_key_pair("a", t1, e1, "pkcs8", "default", "none")
+        g.create_key_pair("b", t2, e2, "pkcs8", "default", "none")
+        gens = [e for e in log if e[0] == "generate"]
+        ok = len(gens) == 2 and gens[0][2] == t1 and gens[1][2] == t2 and len(writes) == 4
+        if ok:
+            k1, k2 = gens[0][1], gens[1][1]
+            ok = (
+                writes[0] == (f"a_priv.{e1}", ("PRIV", k1, e1.upper(), "PKCS8"))
+                and writes[1] == (f"a_pub.{e1}", ("PUB", k1, e1.upper(), "SubjectPublicKeyInfo"))
+                and writes[2] == (f"b_priv.{e2}", ("PRIV", k2, e2.upper(), "PKCS8"))
+                and writes[3] == (f"b_pub.{e2}", ("PUB", k2, e2.upper(), "SubjectPublicKeyInfo"))
+            )
+        return chx.conclude(ok, type1=t1, type2=t2, enc1=e1, enc2=e2)
+
+    return harness
+
+
 # ------------------------------------------------------------------------------------------------ validation / replay
 
 
@@ -551,7 +623,9 @@ def v_stubs():
             ps = K.explore(run2)
             n += 1
             v = ps[0].value if ps and ps[0].outcome == "ret" else None
-            mine = v if isinstance(v, bytes) else (Rope.of(v).concrete() if v is not None else None)
+            from vlib.ksvalues import concretize
+
+            mine = v if isinstance(v, bytes) else (concretize(v) if v is not None else None)
             if len(ps) != 1 or mine != real:
                 bad.append(("translator", type(key).__name__, real.hex()[:20], mine.hex()[:20] if mine else None))
     finally:
@@ -569,10 +643,20 @@ def replay(obligation, params, cex):
             bits = cex["bits"]
             n = (bits + 7) // 8
             if cex.get("x_bytes", n) >= n and cex.get("y_bytes", n) >= n:
-                # full-width counterexample: any key shows it
+                # full-width counterexample: search a real key whose X and Y have the same leading bytes as the solver's
+                # values (a value-dependent defect, e.g. a leading 0x04), falling back to any key
                 from cryptography.hazmat.primitives.asymmetric import ec
 
-                key = ec.derive_private_key(3, {256: ec.SECP256R1(), 384: ec.SECP384R1(), 521: ec.SECP521R1()}[bits])
+                curve = {256: ec.SECP256R1(), 384: ec.SECP384R1(), 521: ec.SECP521R1()}[bits]
+                tx = int(cex.get("x", "0")) >> (8 * (n - 1))
+                key = None
+                for dsc in range(1, 4000):
+                    k = ec.derive_private_key(dsc, curve)
+                    if k.public_key().public_numbers().x >> (8 * (n - 1)) == tx:
+                        key = k
+                        break
+                if key is None:
+                    key = ec.derive_private_key(3, curve)
             else:
                 key, scalar = _find_key_with_short_coord(bits, cex.get("x_bytes", n), cex.get("y_bytes", n))
                 if key is None:
@@ -611,6 +695,28 @@ def replay(obligation, params, cex):
                 return dict(reproduced=True, detail=f"raises {type(e).__name__}: {e}")
             bad = check_text(text, key, cex["columns"], cex["indent"], cex["tab"], cex["no_length"], cex["no_const"], length_type=cex["length_type"])
             return dict(reproduced=bad is not None, detail=bad or "text is the specified rendering")
+        if obligation == "keys_two_pairs_one_generator":
+            import suit_generator.cmd_keys as CK
+            from cryptography.hazmat.primitives import serialization as ser
+
+            g = CK.KeyGenerator()
+            try:
+                g.create_key_pair(os.path.join(d, "a"), cex["type1"], cex["enc1"], "pkcs8", "default", "none")
+                g.create_key_pair(os.path.join(d, "b"), cex["type2"], cex["enc2"], "pkcs8", "default", "none")
+            except Exception as e:  # noqa
+                return dict(reproduced=True, detail=f"raises {type(e).__name__}: {e}")
+            bad = None
+            for pfx, enc in (("a", cex["enc1"]), ("b", cex["enc2"])):
+                lp = ser.load_pem_private_key if enc == "pem" else ser.load_der_private_key
+                lu = ser.load_pem_public_key if enc == "pem" else ser.load_der_public_key
+                try:
+                    priv = lp(open(os.path.join(d, f"{pfx}_priv.{enc}"), "rb").read(), None)
+                    pub = lu(open(os.path.join(d, f"{pfx}_pub.{enc}"), "rb").read())
+                    if priv.public_key().public_bytes(ser.Encoding.DER, ser.PublicFormat.SubjectPublicKeyInfo) != pub.public_bytes(ser.Encoding.DER, ser.PublicFormat.SubjectPublicKeyInfo):
+                        bad = f"pair {pfx}: public file is not the public half of the private file"
+                except Exception as e:  # noqa
+                    bad = f"pair {pfx}: {type(e).__name__}: {e}"
+            return dict(reproduced=bad is not None, detail=bad or "both pairs belong together")
         if obligation == "keys_wiring":
             import suit_generator.cmd_keys as CK
             from cryptography.hazmat.primitives import serialization as ser
